@@ -67,10 +67,13 @@ structure SSt where
   dead : Bool := false
   crashed : Bool := false
   started : Bool := false
+  prop : Nat := 0                -- 17 / 18: evaluate only that property's clauses; 0: all
   tk : TickInfo := {}
 deriving Repr, Inhabited
 
 def init : SSt := {}
+def SSt.c17 (s : SSt) : Bool := s.prop ≠ 18
+def SSt.c18 (s : SSt) : Bool := s.prop ≠ 17
 
 def find (s : SSt) (k : Int) : Option SW := s.ws.find? (·.k = k)
 def upd (s : SSt) (k : Int) (f : SW → SW) : SSt := { s with ws := s.ws.map fun w => if w.k = k then f w else w }
@@ -164,7 +167,7 @@ def raiseS (s : SSt) (sig : Int) : SSt :=
 
 /-- Result of applying one action abstractly: new state and the notifications that must follow
     immediately in the log. -/
-def applyAct (s : SSt) (a : Act) : SSt × List (Int × Nat) :=
+def applyAct (s : SSt) (a : Act) : SSt × List (Int × Nat × WType) :=
   match a with
   | .timer k ms f =>
     if ms < 0 then (s, []) else
@@ -188,7 +191,7 @@ def applyAct (s : SSt) (a : Act) : SSt × List (Int × Nat) :=
       else
         let s := upd s k fun w => { w with state := .cancelled }
         let s := if w.kind = .signal then afterUnwatch s w.signum else s
-        (s, if w.flags &&& BIND_UNBIND ≠ 0 then [(k, EV_UNBIND)] else [])
+        (s, if w.flags &&& BIND_UNBIND ≠ 0 then [(k, EV_UNBIND, w.kind)] else [])
   | .errno _ => (s, [])
   | .raise sig => if validSig sig then (raiseS s sig, []) else (s, [])
   | .exit pid status =>
@@ -197,20 +200,31 @@ def applyAct (s : SSt) (a : Act) : SSt × List (Int × Nat) :=
     else ({ s with children := s.children ++ [{ pid := pid, exited := true, reaped := false, status := status }] }, [])
   | .nop => (s, [])
 
-/-- Consume the notifications an action list must produce, in order. -/
-def expectNotes (evs : List PEv) : List (Int × Nat) → Except String (List PEv)
-  | [] => .ok evs
-  | (k, f) :: rest =>
+def kindName : WType → String
+  | .io => "io watch" | .timer => "timer" | .later => "deferred callback" | .signal => "signal watch"
+  | .process => "process watch" | .none => "watch"
+
+/-- Consume the notifications an action list must produce, in order.  `strict = false` (the clause
+    belongs to the other property): consume them when they are there, say nothing when not. -/
+def expectNotesF (strict : Bool) : Nat → List PEv → List (Int × Nat × WType) → Except String (List PEv)
+  | _, evs, [] => .ok evs
+  | 0, evs, _ => .ok evs
+  | fuel + 1, evs, (k, f, kd) :: rest =>
     match evs with
-    | .g :: evs' => expectNotes evs' ((k, f) :: rest)
-    | .other :: evs' => expectNotes evs' ((k, f) :: rest)
+    | .g :: evs' => expectNotesF strict fuel evs' ((k, f, kd) :: rest)
+    | .other :: evs' => expectNotesF strict fuel evs' ((k, f, kd) :: rest)
     | [] => .ok []          -- the log was cut by a crash
     | .cb k' f' .none :: evs' =>
-      if k' = k && f' = f then expectNotes evs' rest
-      else .error s!"cancel of watch {k}: expected its unbind notification (flags {f}), saw a callback of watch {k'} with flags {f'}"
-    | _ => .error s!"cancel of watch {k}: the unbind notification it asked for did not arrive"
-termination_by l => l.length + evs.length
-decreasing_by all_goals simp_wf <;> omega
+      if k' = k && f' = f then expectNotesF strict fuel evs' rest
+      else if strict then
+        .error s!"cancel of {kindName kd} {k}: expected its unbind notification (flags {f}), saw a callback of watch {k'} with flags {f'}"
+      else expectNotesF strict fuel evs rest
+    | _ =>
+      if strict then .error s!"cancel of {kindName kd} {k}: the unbind notification it asked for did not arrive"
+      else expectNotesF strict fuel evs rest
+
+def expectNotes (strict : Bool) (evs : List PEv) (notes : List (Int × Nat × WType)) : Except String (List PEv) :=
+  expectNotesF strict (evs.length + notes.length + 1) evs notes
 
 /-- Skip informational events. -/
 def skipInfo : List PEv → List PEv
@@ -229,7 +243,7 @@ def runActs (s : SSt) (evs : List PEv) : List Act → Except String (SSt × List
     | .a :: evs =>
       let (s, notes) := applyAct s a
       if s.misuse then .ok (s, []) else
-      match expectNotes evs notes with
+      match expectNotes s.c17 evs notes with
       | .error e => .error e
       | .ok evs => runActs s evs rest
     | _ => .error "harness: a callback did not announce its next action"
@@ -244,10 +258,6 @@ def fireActs (s : SSt) (k : Int) (evs : List PEv) : Except String (SSt × List P
     | none => .ok (s, evs)
     | some b => runActs s evs b.acts
 
-def kindName : WType → String
-  | .io => "io watch" | .timer => "timer" | .later => "deferred callback" | .signal => "signal watch"
-  | .process => "process watch" | .none => "watch"
-
 def stateName : WState → String
   | .live => "live" | .fired => "already run" | .cancelled => "cancelled" | .destroyed => "destroyed"
 
@@ -259,89 +269,101 @@ def reventsOf (s : SSt) (w : SW) : Nat :=
     (match s.ready.find? (·.1 = w.fd) with | some (_, b) => b | none => 0) &&& (eventsOfCond w.cond ||| POLLERR ||| POLLHUP ||| POLLNVAL)
   else 0
 
-/-- Check one FIRE callback against the clauses, then run its behaviour abstractly. -/
+def showI : Info → String
+  | .none => "-"
+  | .io a b => s!"{a}/{b}"
+  | .proc a b => s!"{a}/{b}"
+
+/-- The clauses a FIRE callback of watch `w` must satisfy; `""` when it does. -/
+def fireClauses (s : SSt) (w : SW) (flags : Nat) (info : Info) (inTick : Bool) : String :=
+  let k := w.k
+  if w.state ≠ .live then
+    s!"{kindName w.kind} {k} was invoked (flags {flags}) although it is {stateName w.state}"
+  else if !inTick then s!"{kindName w.kind} {k} was invoked outside a loop iteration"
+  else
+  match w.kind with
+  | .timer =>
+    if flags ≠ EV_FIRE ||| EV_UNBIND then s!"timer {k} invoked with flags {flags}, not FIRE|UNBIND"
+    else if w.due.gt s.tk.now then
+      s!"timer {k} ran before its deadline ({w.due.sec}.{w.due.usec} > now {s.tk.now.sec}.{s.tk.now.usec})"
+    else
+      let orderBad := match s.tk.lastTimer with
+        | some (p, pseq) =>
+          match find s p with
+          | some pw => w.seq < pseq && (pw.due.gt w.due || (pw.due = w.due && pw.seq > w.seq))
+          | none => false
+        | none => false
+      if orderBad then s!"timer {k} ran after a timer with a later deadline (or equal deadline, registered later) although both were pending"
+      else ""
+  | .later =>
+    if flags ≠ EV_FIRE ||| EV_UNBIND then s!"deferred callback {k} invoked with flags {flags}, not FIRE|UNBIND"
+    else
+      let orderBad := match s.tk.lastLater with
+        | some (p, pseq) => w.seq < pseq && idxOf s.laterQ p > idxOf s.laterQ k
+        | none => false
+      if orderBad then s!"deferred callback {k} ran after one queued behind it" else ""
+  | .io =>
+    if flags ≠ EV_FIRE then s!"io watch {k} invoked with flags {flags}, not FIRE"
+    else if s.tk.ioInvoked.contains k then s!"io watch {k} invoked twice in one iteration"
+    else if w.seq ≥ s.tk.pollSeq then
+      s!"io watch {k} was invoked ({showI info}) although it was registered after the wait: nothing was reported for its descriptor"
+    else
+      let want := condOfRevents (reventsOf s w)
+      if s.tk.ret = some 0 || s.tk.ret = none then s!"io watch {k} invoked although no descriptor was reported ready"
+      else if reventsOf s w = 0 then s!"io watch {k} invoked ({showI info}) although nothing was reported for descriptor {w.fd}"
+      else if infoPair info ≠ some (w.fd, (want : Int)) then
+        s!"io watch {k} invoked with {showI info}, the wait reported {w.fd}/{want}"
+      else ""
+  | .signal =>
+    if flags ≠ EV_FIRE then s!"signal watch {k} invoked with flags {flags}, not FIRE"
+    else if !s.tk.delivered.contains w.signum then
+      s!"signal watch {k} invoked although signal {w.signum} was not delivered in this iteration (spurious)"
+    else if s.tk.sigInvoked.contains k then s!"signal watch {k} invoked twice for one delivery"
+    else
+      let orderBad := s.tk.sigInvoked.any fun p =>
+        match find s p with
+        | some pw => pw.signum = w.signum && idxOf s.sigQ p > idxOf s.sigQ k
+        | none => false
+      if orderBad then s!"signal watch {k} invoked after a watcher of the same signal registered behind it" else ""
+  | .process =>
+    if flags &&& EV_FIRE = 0 then s!"process watch {k} invoked with flags {flags}"
+    else
+      match s.children.find? (·.pid = w.pid) with
+      | some c =>
+        if !c.exited then s!"process watch {k} invoked although child {w.pid} has not exited"
+        else if infoPair info ≠ some (w.pid, c.status) then s!"process watch {k} invoked with {showI info}, child {w.pid} exited with {c.status}"
+        else ""
+      | none => s!"process watch {k} invoked although child {w.pid} has not exited"
+  | .none => ""
+
+/-- Bookkeeping of a FIRE callback (whatever the clauses said). -/
+def fireMark (s : SSt) (w : SW) : SSt :=
+  let k := w.k
+  match w.kind with
+  | .timer =>
+    let s := if w.state = .live then upd s k fun w => { w with state := .fired } else s
+    { s with tk := { s.tk with lastTimer := some (k, s.seq) } }
+  | .later =>
+    let s := if w.state = .live then upd s k fun w => { w with state := .fired } else s
+    { s with tk := { s.tk with lastLater := some (k, s.seq) } }
+  | .io => { s with tk := { s.tk with ioInvoked := k :: s.tk.ioInvoked } }
+  | .signal => { s with tk := { s.tk with sigInvoked := k :: s.tk.sigInvoked } }
+  | .process => if w.state = .live then upd s k fun w => { w with state := .fired } else s
+  | .none => s
+
+/-- Check one FIRE callback against the clauses of the property under check, then run its behaviour
+    abstractly.  Timers, deferred callbacks and process watches belong to C17, io and signal watches to C18. -/
 def checkFire (s : SSt) (k : Int) (flags : Nat) (info : Info) (evs : List PEv) (inTick : Bool) :
     Except String (SSt × List PEv) :=
   match find s k with
   | none => .error s!"callback of a watch slot {k} that was never registered"
   | some w =>
-    if w.state ≠ .live then
-      .error s!"{kindName w.kind} {k} was invoked (flags {flags}) although it is {stateName w.state}"
-    else if !inTick then .error s!"{kindName w.kind} {k} was invoked outside a loop iteration"
-    else
-    match w.kind with
-    | .timer =>
-      if flags ≠ EV_FIRE ||| EV_UNBIND then .error s!"timer {k} invoked with flags {flags}, not FIRE|UNBIND"
-      else if w.due.gt s.tk.now then
-        .error s!"timer {k} ran before its deadline ({w.due.sec}.{w.due.usec} > now {s.tk.now.sec}.{s.tk.now.usec})"
-      else
-        let orderBad := match s.tk.lastTimer with
-          | some (p, pseq) =>
-            match find s p with
-            | some pw => w.seq < pseq && (pw.due.gt w.due || (pw.due = w.due && pw.seq > w.seq))
-            | none => false
-          | none => false
-        if orderBad then .error s!"timer {k} ran after a timer with a later deadline (or equal deadline, registered later) although both were pending"
-        else
-          let s := upd s k fun w => { w with state := .fired }
-          let s := { s with tk := { s.tk with lastTimer := some (k, s.seq) } }
-          fireActs s k evs
-    | .later =>
-      if flags ≠ EV_FIRE ||| EV_UNBIND then .error s!"deferred callback {k} invoked with flags {flags}, not FIRE|UNBIND"
-      else
-        let orderBad := match s.tk.lastLater with
-          | some (p, pseq) => w.seq < pseq && idxOf s.laterQ p > idxOf s.laterQ k
-          | none => false
-        if orderBad then .error s!"deferred callback {k} ran after one queued behind it"
-        else
-          let s := upd s k fun w => { w with state := .fired }
-          let s := { s with tk := { s.tk with lastLater := some (k, s.seq) } }
-          fireActs s k evs
-    | .io =>
-      if flags ≠ EV_FIRE then .error s!"io watch {k} invoked with flags {flags}, not FIRE"
-      else if s.tk.ioInvoked.contains k then .error s!"io watch {k} invoked twice in one iteration"
-      else if w.seq ≥ s.tk.pollSeq then
-        .error s!"io watch {k} was invoked ({showI info}) although it was registered after the wait: nothing was reported for its descriptor"
-      else
-        let want := condOfRevents (reventsOf s w)
-        if s.tk.ret = some 0 || s.tk.ret = none then .error s!"io watch {k} invoked although no descriptor was reported ready"
-        else if reventsOf s w = 0 then .error s!"io watch {k} invoked ({showI info}) although nothing was reported for descriptor {w.fd}"
-        else if infoPair info ≠ some (w.fd, (want : Int)) then
-          .error s!"io watch {k} invoked with {showI info}, the wait reported {w.fd}/{want}"
-        else
-          let s := { s with tk := { s.tk with ioInvoked := k :: s.tk.ioInvoked } }
-          fireActs s k evs
-    | .signal =>
-      if flags ≠ EV_FIRE then .error s!"signal watch {k} invoked with flags {flags}, not FIRE"
-      else if !s.tk.delivered.contains w.signum then
-        .error s!"signal watch {k} invoked although signal {w.signum} was not delivered in this iteration (spurious)"
-      else if s.tk.sigInvoked.contains k then .error s!"signal watch {k} invoked twice for one delivery"
-      else
-        let orderBad := s.tk.sigInvoked.any fun p =>
-          match find s p with
-          | some pw => pw.signum = w.signum && idxOf s.sigQ p > idxOf s.sigQ k
-          | none => false
-        if orderBad then .error s!"signal watch {k} invoked after a watcher of the same signal registered behind it"
-        else
-          let s := { s with tk := { s.tk with sigInvoked := k :: s.tk.sigInvoked } }
-          fireActs s k evs
-    | .process =>
-      if flags &&& EV_FIRE = 0 then .error s!"process watch {k} invoked with flags {flags}"
-      else
-        match s.children.find? (·.pid = w.pid) with
-        | some c =>
-          if !c.exited then .error s!"process watch {k} invoked although child {w.pid} has not exited"
-          else if infoPair info ≠ some (w.pid, c.status) then .error s!"process watch {k} invoked with {showI info}, child {w.pid} exited with {c.status}"
-          else
-            let s := upd s k fun w => { w with state := .fired }
-            fireActs s k evs
-        | none => .error s!"process watch {k} invoked although child {w.pid} has not exited"
-    | .none => .ok (s, evs)
-where
-  showI : Info → String
-    | .none => "-"
-    | .io a b => s!"{a}/{b}"
-    | .proc a b => s!"{a}/{b}"
+    let owned := match w.kind with
+      | .io | .signal => s.c18
+      | _ => s.c17
+    let verdict := fireClauses s w flags info inTick
+    if owned && verdict ≠ "" then .error verdict
+    else fireActs (fireMark s w) k evs
 
 /-- Walk the callback log of one operation. -/
 def walk (s : SSt) (inTick : Bool) : (fuel : Nat) → List PEv → Except String SSt
@@ -374,7 +396,7 @@ def checkTick (s : SSt) (hang : Bool) (evs : List PEv) (cut : Bool) : Except Str
     let ios := liveOf s .io
     let wantSlots := ios.map fun w => (w.fd, eventsOfCond w.cond)
     let haveSlots := slots.filter (·.1 ≠ -1)
-    if !multisetEq wantSlots haveSlots then
+    if s.c18 && !multisetEq wantSlots haveSlots then
       .error s!"the loop polls {haveSlots}, the live io watches are {wantSlots}"
     else
     let s := s.inpoll.foldl raiseS { s with inpoll := [] }
@@ -401,16 +423,16 @@ def checkTick (s : SSt) (hang : Bool) (evs : List PEv) (cut : Bool) : Except Str
     | .ok s =>
       if s.misuse || cut then .ok s else
       let stillLive (w : SW) : Bool := match find s w.k with | some w' => w'.state = .live | none => false
-      match dueTimers.find? stillLive with
+      match (if s.c17 then dueTimers else []).find? stillLive with
       | some w => .error s!"timer {w.k} was due (deadline {w.due.sec}.{w.due.usec} <= now {now.sec}.{now.usec}) and did not run in this iteration"
       | none =>
-      match batch.find? stillLive with
+      match (if s.c17 then batch else []).find? stillLive with
       | some w => .error s!"deferred callback {w.k} was pending and did not run in this iteration"
       | none =>
-      match ioWant.find? (fun w => stillLive w && !s.tk.ioInvoked.contains w.k) with
+      match (if s.c18 then ioWant else []).find? (fun w => stillLive w && !s.tk.ioInvoked.contains w.k) with
       | some w => .error s!"io watch {w.k}: descriptor {w.fd} was reported ready and the watch was not invoked"
       | none =>
-      match sigWant.find? (fun w => stillLive w && !s.tk.sigInvoked.contains w.k) with
+      match (if s.c18 then sigWant else []).find? (fun w => stillLive w && !s.tk.sigInvoked.contains w.k) with
       | some w => .error s!"signal {w.signum} was delivered during the wait of this iteration and signal watch {w.k} was not invoked"
       | none => .ok s
   | _ =>
@@ -424,6 +446,7 @@ def checkDestroy (s : SSt) (evs : List PEv) (cut : Bool) : Except String SSt :=
   -- a pending signal whose watchers go away with the instance reaches the process with its default action
   if s.raised.any sigTerminates then .ok { s with misuse := true, dead := true } else
   if cut then .ok s else
+  if !s.c17 then .ok { s with ws := s.ws.map (fun w => if w.state = .live then { w with state := .destroyed } else w), dead := true } else
   let cbs := evs.filterMap fun e => match e with | .cb k f _ => some (k, f) | _ => none
   match cbs.find? (fun (_, f) => f &&& EV_FIRE ≠ 0) with
   | some (k, f) => .error s!"watch {k} was fired (flags {f}) by the destruction of the instance"
@@ -447,12 +470,12 @@ def checkDestroy (s : SSt) (evs : List PEv) (cut : Bool) : Except String SSt :=
                  misuse := s.misuse || term }
 
 /-- One operation line. `why` is the model's explanation of a crash it predicts (used only to word the message). -/
-def step (s : SSt) (op : Op) (impl : List String) (why : String) : SSt × String :=
-  if s.crashed then (s, "") else
+def step (s : SSt) (op : Op) (impl : List String) (why : String) (owner : Nat := 0) : SSt × String :=
+  if s.crashed && (match op with | .new _ => false | _ => true) then (s, "") else
   let crashMsg (how : String) : String :=
     s!"the library crashed ({how}) on valid usage" ++ (if why.isEmpty then "" else s!": {why}")
   match op with
-  | .new => ({ init with started := true }, "")
+  | .new p => ({ init with started := true, prop := p }, "")
   | .bad => (s, "")
   | _ =>
   -- a line `CRASH …`: the process died before the operation produced any event
@@ -465,20 +488,20 @@ def step (s : SSt) (op : Op) (impl : List String) (why : String) : SSt × String
   | none => (s, "unparsable observation")
   | some (evs, cut, how) =>
     if s.dead && !cut then
-      if op = .finish && !s.misuse && impl ≠ ["leaks=0"] then
+      if op = .finish && !s.misuse && s.c17 && impl ≠ ["leaks=0"] then
         (s, s!"memory was leaked ({" ".intercalate impl})" ++ (if why.isEmpty then "" else s!": {why}"))
       else (s, "")
     else if s.misuse then ({ s with crashed := cut }, "") else
     let r : Except String SSt :=
       match op with
       | .finish =>
-        if cut || impl = ["leaks=0"] then .ok s
+        if cut || !s.c17 || impl = ["leaks=0"] then .ok s
         else .error (s!"memory was leaked ({" ".intercalate impl})" ++ (if why.isEmpty then "" else s!": {why}"))
       | .beh b => .ok { s with behs := s.behs ++ [b] }
       | .act a =>
         let (s, notes) := applyAct s a
         if s.misuse then .ok s else
-        match expectNotes evs notes with
+        match expectNotes s.c17 evs notes with
         | .error e => .error e
         | .ok rest => walk s false (rest.length + 1) rest
       | .clock us => .ok { s with clockUs := s.clockUs + us }
@@ -491,7 +514,9 @@ def step (s : SSt) (op : Op) (impl : List String) (why : String) : SSt × String
     match r with
     | .ok s =>
       if cut then
-        if s.misuse then ({ s with crashed := true }, "") else ({ s with crashed := true }, crashMsg how)
+        -- a crash the model attributes to the other property's territory is that property's to report
+        if s.misuse || (owner ≠ 0 && s.prop ≠ 0 && owner ≠ s.prop) then ({ s with crashed := true }, "")
+        else ({ s with crashed := true }, crashMsg how)
       else (s, "")
     | .error e => ({ s with crashed := true }, e)     -- one verdict per history: the abstract state is no longer in step
 
